@@ -412,6 +412,12 @@ fn inflate_reset(rep: &mut Report, rng: &mut Rng) {
     let mut fresh = InflateState::new_boxed(fmt(zl2));
     let before_start = !zl2 && rng.chance(1, 3);
     let s = subsequent_stream(rng, zl2, before_start);
+    // does the subsequent stream (by construction or by mutation) reach before its own start?
+    // (reference decoder, 32 KiB window of zeros = what a fresh inflater sees)
+    let zeros = vec![0u8; 32768];
+    let rtrace = ref_inflate(&s, Opts::fmt(zl2).ring(&zeros, 0).with_taint());
+    let reaches_before_start = rtrace.stats.before_start_refs > 0;
+    let min_reset_excuse = pname == "MinReset" && reaches_before_start;
     rep.eval();
     rep.count(&format!("inflate_reset_triples_{}", pname));
     if before_start {
@@ -450,7 +456,7 @@ fn inflate_reset(rep: &mut Report, rng: &mut Rng) {
             status_diff = Some(format!("call {}: reset object ({:?}, {}, {}) vs fresh object ({:?}, {}, {})", calls, ra.status, ra.bytes_consumed, ra.bytes_written, rb.status, rb.bytes_consumed, rb.bytes_written));
             break;
         }
-        if used.decompressor().adler32() != fresh.decompressor().adler32() && !before_start {
+        if used.decompressor().adler32() != fresh.decompressor().adler32() && !min_reset_excuse {
             status_diff = Some(format!("call {}: exposed adler32 differs ({:?} vs {:?})", calls, used.decompressor().adler32(), fresh.decompressor().adler32()));
             break;
         }
@@ -465,14 +471,30 @@ fn inflate_reset(rep: &mut Report, rng: &mut Rng) {
         }
     }
     let det = |what: &str| Json::obj(vec![("policy", Json::s(pname)), ("prior_history", Json::s(&hdesc)), ("subsequent_stream_hex", Json::s(&hex_short(&s, 300))), ("format", Json::s(if zl2 { "zlib" } else { "raw" })), ("first_call_finish", Json::Bool(finish_first)), ("what", Json::s(what))]);
+    // bytes delivered so far: do they differ, and only where the reference trace says the byte
+    // derives from a reference before the stream's own start?
+    let r = &rtrace;
+    let tainted_only = {
+        let mut ok = true;
+        let mut any = false;
+        for i in 0..total_out_a.len().min(total_out_b.len()) {
+            if total_out_a[i] != total_out_b[i] {
+                any = true;
+                if i >= r.taint.len() || !r.taint[i] {
+                    ok = false;
+                }
+            }
+        }
+        ok && any
+    };
     if let Some(d) = status_diff {
-        rep.violation(&format!("C18:inflate-reset-differs:{}:results", pname), format!("after reset_as({}) the inflater answers differently from a fresh one: {}", pname, d), det(&d));
+        // under MinReset a checksum verdict / status may differ *because* tainted bytes differ
+        // (the known finding); any other status difference is a violation
+        let sig = if min_reset_excuse && tainted_only { "C18:inflate-reset-differs:MinReset:only-bytes-derived-from-before-stream-start".to_string() } else { format!("C18:inflate-reset-differs:{}:results", pname) };
+        rep.violation(&sig, format!("after reset_as({}) the inflater answers differently from a fresh one: {}", pname, d), det(&d));
         return;
     }
     if total_out_a != total_out_b {
-        // which bytes differ? taint according to the reference decoder (window semantics)
-        let zeros = vec![0u8; 32768];
-        let r = ref_inflate(&s, Opts::fmt(zl2).ring(&zeros, 0).with_taint());
         let mut all_tainted = true;
         let mut first = None;
         for i in 0..total_out_a.len().min(total_out_b.len()) {
